@@ -31,3 +31,9 @@ Proof. reflexivity. Qed.
 (* the embedding-class arms of put/get/delete/exists hold the key's lock stripe *)
 Lemma gen_emb_ops_locked : gen_emb_locked = true.
 Proof. reflexivity. Qed.
+
+(* CacheRing::get reads the slot number and the slot under different locks; it returns a value only
+   after comparing the entry's key (the slot may have been re-used in between) *)
+Lemma gen_cache_get_key_checked : gen_cache_get_checks_key = true.
+Proof. reflexivity. Qed.
+
